@@ -36,6 +36,7 @@ pub struct Summary {
    pub clock_readings: u64,
    pub clock_ns: u64,
    pub inconclusive: u64,
+   pub extra: BTreeMap<String, u64>,
    pub samples: Vec<serde_json::Value>,
    pub violations: Vec<Found>,
    pub wall_s: f64,
@@ -96,7 +97,16 @@ pub fn account(sum: &mut Summary, case: &Case, obs: &Observation) {
    sum.deviations += s.deviations.len() as u64;
    sum.draws += s.draws.len() as u64;
    sum.tasks += s.max_task as u64 + 1;
-   if s.preemptions >= 1 && s.max_task >= 1 {
+   if case.check == "C14" {
+      // fault enumeration: non-trivial = the deadline really struck (or tasks really interleaved);
+      // distinct = distinct (schedule trace, program, input, clock plan)
+      let struck = obs.snaps.iter().any(|x| x.ret == Some(false));
+      if struck || (s.preemptions >= 1 && s.max_task >= 1) {
+         let ops = serde_json::to_string(&case.actors).unwrap();
+         let h = ops.bytes().fold(s.hash, |h, b| (h ^ b as u64).wrapping_mul(0x100000001b3));
+         sum.nontrivial_hashes.push(h);
+      }
+   } else if s.preemptions >= 1 && s.max_task >= 1 {
       sum.nontrivial_hashes.push(s.hash);
    }
    sum.digests.push((case.index, s.hash, result_digest(obs)));
@@ -151,17 +161,17 @@ pub fn sample_json(case: &Case, obs: &Observation) -> serde_json::Value {
    })
 }
 
-pub fn run_range(check: &str, thorough: bool, seed: u64, from: u64, to: u64, gen: &dyn Fn(&str, bool, u64, u64) -> Case) -> Summary {
+pub fn run_range(check: &str, thorough: bool, seed: u64, from: u64, to: u64, gen: &dyn Fn(&str, bool, u64, u64) -> Option<Case>) -> Summary {
    let t0 = std::time::Instant::now();
    let mut sum = Summary { check: check.to_string(), from, to, ..Default::default() };
    if from >= to {
       return sum;
    }
-   let first = gen(check, thorough, seed, from);
-   sum.shards_lazy = pin_process(first.proc_first_pool);
+   let first_pool = crate::gen::proc_first_pool(seed, check, from);
+   sum.shards_lazy = pin_process(first_pool);
    for index in from..to {
-      let case = gen(check, thorough, seed, index);
-      assert_eq!(case.proc_first_pool, first.proc_first_pool, "a chunk must not span process configurations");
+      let Some(case) = gen(check, thorough, seed, index) else { continue };
+      assert_eq!(case.proc_first_pool, first_pool, "a chunk must not span process configurations");
       let obs = execute(&case);
       account(&mut sum, &case, &obs);
       if sum.samples.len() < 2 && obs.sched.preemptions > 0 {
@@ -176,6 +186,15 @@ pub fn run_range(check: &str, thorough: bool, seed: u64, from: u64, to: u64, gen
          }
       }
       let _: Option<Failure> = None;
+   }
+   if check == "C14" {
+      crate::gen14::GROUP_STATS.with(|g| {
+         let g = g.borrow();
+         bump(&mut sum.extra, "groups(program,input,schedule)", g.groups);
+         bump(&mut sum.extra, "groups_with_every_strike_point_enumerated", g.exhaustive_groups);
+         bump(&mut sum.extra, "groups_truncated_at_ENUM_readings", g.truncated_groups);
+         bump(&mut sum.extra, "strike_points_enumerated", g.readings_enumerated);
+      });
    }
    sum.wall_s = t0.elapsed().as_secs_f64();
    sum
